@@ -412,6 +412,40 @@ impl Exec {
                     }
                 }
             }
+            "forkfrom" => {
+                // like `fork`, but when an `alt` value exists it is overwritten with
+                // `Clone::clone_from` (which may reuse its allocation) instead of being replaced
+                let nt = fresh_tag();
+                CLONE_TAG.with(|c| c.set(nt));
+                match self.alt.take() {
+                    Some(mut old) => {
+                        let ot = old.tag;
+                        let cur = &self.cur.arena;
+                        match guard(|| old.arena.clone_from(cur)) {
+                            Ok(()) => {
+                                purge(ot);
+                                self.alt = Some(Side { arena: old.arena, issued: self.cur.issued.clone(), tag: nt });
+                                "r ok".into()
+                            }
+                            Err(_) => {
+                                purge(ot);
+                                purge(nt);
+                                "r panic".into()
+                            }
+                        }
+                    }
+                    None => match guard(|| self.cur.arena.clone()) {
+                        Ok(arena) => {
+                            self.alt = Some(Side { arena, issued: self.cur.issued.clone(), tag: nt });
+                            "r ok".into()
+                        }
+                        Err(_) => {
+                            purge(nt);
+                            "r panic".into()
+                        }
+                    },
+                }
+            }
             "swap" => {
                 if let Some(alt) = self.alt.as_mut() {
                     std::mem::swap(&mut self.cur, alt);
